@@ -382,23 +382,23 @@ def parseI32 (s : Str) : Option Int :=
   if -(2 ^ 31 : Int) ≤ z ∧ z < (2 ^ 31 : Int) then some z else none
 
 /-- the two `while` loops; they end when the next element would leave the i32 range -/
-def rangeSeq (start stop incr : Int) : Nat → Int → List Str → Outcome (List Str)
-  | 0, _, acc => .ok acc
+def rangeSeq (start stop incr : Int) : Nat → Int → List Str → List Str
+  | 0, _, acc => acc
   | f + 1, n, acc =>
     if start > stop then
       if n ≥ stop then
         let n' := n - incr
-        if n' < -(2 ^ 31 : Int) then .ok (acc ++ [showInt n])                 -- `checked_sub` fails: stop
+        if n' < -(2 ^ 31 : Int) then acc ++ [showInt n]                 -- `checked_sub` fails: stop
         else rangeSeq start stop incr f n' (acc ++ [showInt n])
-      else .ok acc
+      else acc
     else
       if n ≤ stop then
         let n' := n + incr
-        if n' ≥ (2 ^ 31 : Int) then .ok (acc ++ [showInt n])                  -- `checked_add` fails: stop
+        if n' ≥ (2 ^ 31 : Int) then acc ++ [showInt n]                  -- `checked_add` fails: stop
         else rangeSeq start stop incr f n' (acc ++ [showInt n])
-      else .ok acc
+      else acc
 
-inductive RangeRes | unchanged | items (l : List Str) | abort | panic (s : String)
+inductive RangeRes | unchanged | items (l : List Str) | abort
 
 def rangeToken (sep text : Str) : RangeRes :=
   if sep ≠ [] then .unchanged else
@@ -415,22 +415,18 @@ def rangeToken (sep text : Str) : RangeRes :=
        | some k =>
          let k := if k ≤ 1 then 1 else k
          let steps := ((if s > e then s - e else e - s) / k).toNat + 2
-         match rangeSeq s e k steps s [] with
-         | .ok l => .items l
-         | .panic m => .panic m
-         | _ => .abort)
+         .items (rangeSeq s e k steps s []))
     | _, _ => .abort
 
-def expandRangeGo : List Tok → Outcome (Option (List Tok))
-  | [] => .ok (some [])
+def expandRangeGo : List Tok → Option (List Tok)
+  | [] => some []
   | (sep, text) :: rest =>
     match rangeToken sep text with
-    | .abort => .ok none
-    | .panic m => .panic m
-    | .unchanged => (expandRangeGo rest).map (fun r => r.map (fun r => (sep, text) :: r))
-    | .items l => (expandRangeGo rest).map (fun r => r.map (fun r => l.map tagBlank ++ r))
+    | .abort => none
+    | .unchanged => (expandRangeGo rest).map (fun r => (sep, text) :: r)
+    | .items l => (expandRangeGo rest).map (fun r => l.map tagBlank ++ r)
 
-def expandBraceRange (ts : List Tok) : Outcome (List Tok) :=
-  (expandRangeGo ts).map (fun r => r.getD ts)
+/-- `expand_brace_range`: a bound that does not fit an `i32` makes the pass return early (tokens unchanged) -/
+def expandBraceRange (ts : List Tok) : List Tok := (expandRangeGo ts).getD ts
 
 end Cicada
